@@ -51,3 +51,16 @@ Theorem C06_needs_quotes : forall ulower s rest, s <> [] -> ident_needs_quotes u
   s_scan ulower (s ++ rest) <> ((IDENT, s), rest).
 Proof. exact bare_needs_quotes. Qed.
 Print Assumptions C06_needs_quotes.
+
+(* what does NOT hold of the faithful model, and of the code (known finding C06-word-absorbed): the text BEFORE a quoted
+   identifier is not safe from it.  Scanner.scanIdent continues a bare word into a directly following double-quoted
+   part and returns the quoted part alone, so a bare word written directly before a quoted identifier is absorbed: it
+   lies inside the token's extent and contributes nothing to its value.  the text x, double quote, y, double quote scans as the single identifier y.
+   (scanner_test.go pins the neighbouring case of the word test followed by one double quote = one BADSTRING, so the one-condition repair - open a quoted
+   identifier only at the start of a token - does not pass the existing suite.) *)
+Theorem C06_word_before_quote_refuted :
+  exists w s rest, w <> [] /\ ident_needs_quotes (fun c => c) w = false /\
+    s_scan (fun c => c) (w ++ 34 :: flat_map qi_escape s ++ 34 :: rest) = ((IDENT, s), rest) /\
+    fst (scan (fun c => c) (new_reader (w ++ 34 :: flat_map qi_escape s ++ 34 :: rest))) = (IDENT, pos0, s).
+Proof. exists (ts "x"), (ts "y"), (ts " z"). split; [discriminate|]. vm_compute. repeat split; reflexivity. Qed.
+Print Assumptions C06_word_before_quote_refuted.
